@@ -215,6 +215,8 @@ func (c *Ctx) makeIface(st *State, v *Val, srcT, ifaceT types.Type) *Val {
 	return &Val{T: ifaceT, Term: c.define("if", "Iface", app("mkIface", tag, payload))}
 }
 
+// box: payload integer of a non-pointer dynamic value. Boxing is a deterministic, injective
+// function of the value (unbox(box(v)) == v), so that interface equality is equality of (tag, payload).
 func (c *Ctx) box(v *Val, t types.Type) string {
 	s := sortOf(t)
 	switch s {
@@ -227,24 +229,27 @@ func (c *Ctx) box(v *Val, t types.Type) string {
 	case "Bool":
 		return ite(v.Term, "1", "0")
 	}
-	b := c.fresh("box", "Int")
-	c.assumeAlways(app("<", b, "(- 2000000)")) // boxes never collide with references
-	if s != "" {
-		fn := sym("unbox." + typeName(t))
-		c.declareFun(fn, []string{"Int"}, s)
-		c.assumeAlways(eq(app(fn, b), v.Term))
-		return b
+	var terms, sorts, names []string
+	c.collectLeaves(t, v, typeName(t), &terms, &sorts, &names)
+	if len(terms) == 0 {
+		return "0" // empty struct
 	}
-	// struct: per leaf
-	c.boxLeaves(b, t, v, typeName(t))
+	bf := sym("box." + typeName(t))
+	c.declareFun(bf, sorts, "Int")
+	b := c.define("box", "Int", app(bf, terms...))
+	for i := range terms {
+		fn := sym("unbox." + names[i])
+		c.declareFun(fn, []string{"Int"}, sorts[i])
+		c.assumeAlways(eq(app(fn, b), terms[i]))
+	}
 	return b
 }
 
-func (c *Ctx) boxLeaves(b string, t types.Type, v *Val, name string) {
+func (c *Ctx) collectLeaves(t types.Type, v *Val, name string, terms, sorts, names *[]string) {
 	if stt, ok := t.Underlying().(*types.Struct); ok {
 		for i := 0; i < stt.NumFields(); i++ {
 			if v.Fs != nil && i < len(v.Fs) {
-				c.boxLeaves(b, stt.Field(i).Type(), v.Fs[i], name+"."+stt.Field(i).Name())
+				c.collectLeaves(stt.Field(i).Type(), v.Fs[i], name+"."+stt.Field(i).Name(), terms, sorts, names)
 			}
 		}
 		return
@@ -253,9 +258,9 @@ func (c *Ctx) boxLeaves(b string, t types.Type, v *Val, name string) {
 	if s == "" || v.Term == "" {
 		return
 	}
-	fn := sym("unbox." + name)
-	c.declareFun(fn, []string{"Int"}, s)
-	c.assumeAlways(eq(app(fn, b), v.Term))
+	*terms = append(*terms, v.Term)
+	*sorts = append(*sorts, s)
+	*names = append(*names, name)
 }
 
 func (c *Ctx) unbox(st *State, payload string, t types.Type) *Val {
